@@ -84,6 +84,7 @@ class Ctl:
         self.step_no = 0
         self.resolve_paths = False
         self.corrupt = {}            # side -> set(oids) whose download raises CloudCorruptError
+        self.hard_fail = {}          # side -> set(account paths) whose create/upload/mkdir raises OSError (a non-cloud failure)
         self.event_fail = {}         # side -> the next intake of `side` raises CloudTemporaryError after k events
         self.event_take = {}         # side -> max number of events to hand over in the next intake (split intake)
         self.mangler = {}            # side -> callable(list_of_events) -> list_of_events   (C14)
@@ -207,6 +208,19 @@ def _engine_call(p, side, ctl, name, orig, a, kw):
         if fault[0] == "disc":
             p.disconnect()
         raise FAULT_EXC[fault[0]]()
+    hf = ctl.hard_fail.get(side) if ctl.hard_fail else None
+    if hf and name in ("create", "upload", "mkdir") and a:
+        # a path on which the provider's own machinery fails with a NON-cloud exception (permission denied on a local disk...)
+        tgt = a[0]
+        if name == "upload":
+            try:
+                info = p.info_oid(a[0])
+                tgt = info.path if info else None
+            except ex.CloudException:
+                tgt = None
+        if tgt in hf:
+            ctl.fired.append((idx, side, name, "oserror", False, ctl.step_no, ""))
+            raise OSError(13, "sim: permission denied", tgt)
     if name == "download" and ctl.corrupt.get(side) and a and a[0] in ctl.corrupt[side]:
         ctl.fired.append((idx, side, name, "corrupt", False, ctl.step_no, ""))
         raise ex.CloudCorruptError("sim corrupt %s" % a[0])
